@@ -84,6 +84,27 @@ def work(item):
                                   'F(-%d)' % n_out if who == 'sender' else '%d*b[%r]/b[%r]' % (n_in, xr.GetVariableName(s.CurrencyZone.Currency),
                                                                                               xr.GetVariableName(d.CurrencyZone.Currency))))
             rec['obs'].append(ob)
+    # a sector outside a market's currency zone that merely carries a variable named like a demand for that market: no flow crosses the boundary, so
+    # nothing is booked anywhere (neither in the sector's ledger nor in the market's demand, which would be an unconverted cross-currency payment)
+    for skey, mkey in plan.meta.get('wishes', []):
+        sec, mk = ctx[skey], ctx[mkey]
+        wname = 'DEM_%s_%s' % (mk.Parent.Code, mk.Code)
+        if wname not in sec.EquationBlock:
+            continue
+        x = S.var(sec.GetVariableName(wname), 'b')
+        c1 = coef(S, sec, None, x)
+        drhs = S.rhs(mk.GetVariableName('DEM_' + mk.Code), 'b')
+        c2 = z3.simplify(z3.substitute(drhs, (x, x + 1)) - drhs)
+        for what, c in (('ledger of %s does not move with its %s' % (sec.FullCode, wname), c1), ('demand on market %s does not count %s of %s' % (mk.FullCode, wname, sec.FullCode), c2)):
+            v, m = su.entail(c == 0)
+            ob = {'kind': 'no-unconverted-flow', 'what': what, 'verdict': v}
+            if v == 'sat':
+                ob['cex'] = full_model(m, S)
+                ob['check'] = ('E = dict(list(em.parser.Endogenous) + list(em.parser.Decoration))\n'
+                               'uses = [v for v, e in E.items() if %r in e.replace(" ", "") and v in (%r, %r)]\n'
+                               'bad = bool(uses); print("equations that use the out-of-zone variable:", uses)'
+                               % (sec.GetVariableName(wname), sec.GetVariableName('F'), mk.GetVariableName('DEM_' + mk.Code)))
+            rec['obs'].append(ob)
     # cross-zone suppliers: supplier's own supply variable = market's assigned amount * XR_buyer/XR_seller, booked +1
     for cb, cs in plan.meta.get('imports', []):
         mk, sup = ctx[cb + '.GOOD'], ctx[cs + '.BUS']
